@@ -517,6 +517,9 @@ class Column:
 
     @staticmethod
     def set_check_in_columm(check: Optional[List]) -> Optional[str]:
+        if isinstance(check, str):
+            # already rendered when an earlier option of the same column was folded in
+            return check
         if check:
             check_statement = ""
             for n, item in enumerate(check):
